@@ -86,6 +86,16 @@ def indicesFrom (y : Bytes) : Nat → Bytes → List Bytes → List Nat
 def indicesStr (s y : Bytes) : List Nat :=
   if y.isEmpty then [] else indicesFrom y 0 s (Utf8.chars s)
 
+/-! REPAIRED BEHAVIOUR (design/fixes/C13-indices-char-boundary.diff) — integrator switch:
+`indicesRepaired = false` follows the code as it is; `true` (after the fix) additionally requires a
+match to END on a character boundary. -/
+
+def indicesRepaired : Bool := false
+
+def indicesStrRepaired (s y : Bytes) : List Nat :=
+  (indicesStr s y).filter fun k =>
+    (starts s ++ [s.length]).contains ((starts s).getD k s.length + y.length)
+
 /-- `indices` on byte strings: `windows(len).enumerate()` -/
 def indicesBytesFrom (y : Bytes) : Nat → Bytes → List Nat
   | _, [] => []
